@@ -349,6 +349,7 @@ def c20(ctx):
     t = ctx.tier
     mc(ctx, "Upload.tla", "Upload_%s.cfg" % t, what="ControlLast, ErrorMeansAbsent, RemoveLast, SuccessPost, Confined in every state")
     vf.tlaps(ctx, "proofs/UploadProof.tla")      # ControlLast / ErrorMeansAbsent for an arbitrary number of listed files
+    vf.tlaps(ctx, "proofs/RemoveProof.tla")      # RemoveLast / ErrorKeepsControl / OkMeansAllGone (Move, Remove), arbitrary N
     g1 = gen(ctx, "UploadGen.tla", "UploadGen_%s.cfg" % t, ctx.path("up.ndjson"), what="upload scenarios")
     judge(ctx, "C20", g1, what="inotify traces vs upload model")
     ctx.exhaustive = True
